@@ -26,6 +26,9 @@ CHECKS = {
     "C06": dict(tech="stress workload on ASan and TSan builds with guarded hooks in thpool.c driving seeded delay injection and spurious wake-ups; monitors: per-task counters/stamps, concurrency gauge, pool-touched-after-free hook monitor, allocator balance, quiescence-based deadlock detector; TSan/ASan reports",
                 text="Thousands of perturbed schedules per run over all pool flavours are observed by online monitors (exactly-once, argument identity, wait-all/wait-current completion relative to the stamp at which free returned, no pool access after free, gauge <= threads, logical deadlock criterion) plus the race detector. Schedules are sampled: the evidence reports distinct interleaving signatures seen.",
                 ref="C06"),
+    "C04": dict(tech="generated API programs with scripted re-entrant callbacks executed by the core_exec interpreter on the ASan+UBSan+LSan build, accounting allocator via m_set_memhook (free-of-unknown, outstanding table at quiescence), zombie and retained-event probes",
+                text="Every scenario profile (random mixed programs and hostile-lifetime templates: mailbox overflow, self stop/deregister/unsubscribe with mail in flight, cross-module stop inside one poll batch, events retained past source/module/context, auto-free fan-out) is executed under the sanitizers in both driving modes; a violation is any sanitizer report, an allocator verdict, or blocks outstanding after teardown. Memory safety is judged on the executions produced; red-zone limits apply.",
+                ref="C04"),
 }
 
 NOT_YET = "check not built yet in this round (work in progress, see DESIGN.md §3 for the planned monitor)"
